@@ -145,6 +145,21 @@ def run(seed, tier, driver):
                 res.fail('C04', 'framing violation not answered with NOTIFICATION(1,%d) + close' % sub,
                          {'state': state, 'stream': stream.hex(), 'outs': outs, 'final': final},
                          key='framing-reaction')
+        # the converse: a stream in which the reference deframer finds no framing violation (and no message whose own
+        # length contradicts its type: a KEEPALIVE with a body, an OPEN shorter than its fixed part) must not be answered
+        # with a Message Header Error - every message of it was extracted
+        legit = any(it[0] == 'err' for it in items) or \
+            any(it[0] == 'msg' and ((it[1] == 4 and it[2]) or (it[1] == 1 and len(it[2]) < 10)) for it in items)
+        if not legit:
+            for o in outs:
+                if o[0] == 'write':
+                    w = bytes.fromhex(o[2])
+                    if w[18] == 3 and w[19] == 1:
+                        res.fail('C04', 'a stream without framing violation was answered with Message Header Error (1,%d): '
+                                        'a well-framed message was not extracted' % w[20],
+                                 {'state': state, 'stream': stream.hex() if len(stream) < 600 else stream[:64].hex() + '...(%d octets)' % len(stream),
+                                  'outs': outs[:4]}, key='framing-false-violation')
+                        break
 
     # ---- streams x segmentations
     sts = streams(r, tier, remote_as)
